@@ -16,7 +16,8 @@ enum What {
     Savage2,
     Jc2m,
     Mindustry,
-    TheShip,
+    /// (the server speaks protocol version 7, as old Source servers do)
+    TheShip { protocol7: bool },
     /// `contrary`: the info reply says the opposite of what the override rules say (password set, rule says N)
     Battalion { overrides: u8, contrary: bool },
     Eco { mode: u8 },
@@ -52,7 +53,8 @@ fn cases(tier: Tier) -> Vec<Case> {
     v.push(Case { label: format!("savage2 dev<={dev}"), what: What::Savage2, bound: dev });
     v.push(Case { label: format!("jc2m dev<={dev}"), what: What::Jc2m, bound: dev });
     v.push(Case { label: format!("mindustry dev<={dev}"), what: What::Mindustry, bound: dev });
-    v.push(Case { label: format!("theship dev<={dev}"), what: What::TheShip, bound: dev });
+    v.push(Case { label: format!("theship dev<={dev}"), what: What::TheShip { protocol7: false }, bound: dev });
+    v.push(Case { label: format!("theship, server speaking protocol 7, dev<={dev}"), what: What::TheShip { protocol7: true }, bound: dev });
     for overrides in 0 .. 64u8 {
         let b = if overrides == 0 || overrides == 63 { dev } else { 0 };
         for contrary in [false, true] {
@@ -85,7 +87,7 @@ impl Prop for C07 {
         "case = (game format, transport variant); within a case every well-formed reply within <= bound field deviations of the \
          default (boundary alphabets for every numeric field, empty/multi-byte/long strings, optional trailing fields, 0/1/2/100 \
          players, reported-vs-listed counts below/equal/above, every subset of the six Battalion 1944 override rules) is served \
-         by the reference model and the game's query must return each field in the correspondingly named response field. Eco is \
+         by the reference model (The Ship also from a server speaking protocol 7 that splits players and rules in two, JC2-MP with every kind of challenge) and the game's query must return each field in the correspondingly named response field. Eco is \
          served by a loopback HTTP/1.1 responder (real sockets, content-length / chunked / close-delimited / gzip)"
             .into()
     }
@@ -166,12 +168,12 @@ impl Prop for C07 {
                     |t| t,
                 );
             }
-            What::TheShip => {
+            What::TheShip { protocol7 } => {
                 explore_decode(
                     ctx,
                     case.bound,
                     "theship",
-                    |c| {
+                    move |c| {
                         let mut s = rv::gen_state(c, rv::Layout::Ship, Some(0xF1), 2400, (b'd', b'l'), &[2, 0, 1, 40], &[2, 0, 1, 30]);
                         // the wrapper checks the app id: a Ship server reports 2400, in the 16-bit field and in the low 24 bits
                         // of the 64-bit game id (whose upper bits carry the id's kind and a mod id)
@@ -179,9 +181,26 @@ impl Prop for C07 {
                         if let Some(e) = s.info.edf.as_mut() {
                             e.game_id = Some(crate::rsm::pick(c, &[2400u64, (1 << 24) | 2400, (0xDEAD_BEEF << 32) | (0x7F << 24) | 2400]));
                         }
+                        if protocol7 {
+                            s.info.protocol = 7;
+                        }
                         s
                     },
-                    |s| Box::new(rv::ValveServer::new(s.clone(), auto_transport(s, false))),
+                    move |s| {
+                        let mut t = auto_transport(s, false);
+                        if protocol7 {
+                            // (an old server splits at a small size: players and rules arrive in two fragments each, with the size field)
+                            let pl = rv::players_body(&s.players).len();
+                            let rl = rv::rules_body(&s.rules).len();
+                            if pl > 8 {
+                                t.players = rv::Framing::Source { cuts: crate::rsm::even_cuts(pl, 2), compressed: false, size_field: true, exact_size: true, id: 2 };
+                            }
+                            if rl > 8 {
+                                t.rules = rv::Framing::Source { cuts: crate::rsm::even_cuts(rl, 2), compressed: false, size_field: true, exact_size: true, id: 3 };
+                            }
+                        }
+                        Box::new(rv::ValveServer::new(s.clone(), t))
+                    },
                     || theship::query(&IP4, Some(PORT)),
                     expected_ship,
                     |t| t,
